@@ -2,5 +2,6 @@ SPECIFICATION FairSpec
 CONSTANTS MaxOps = 1
           MaxClock = 0
           Small = TRUE
+          Tiny = FALSE
 PROPERTY EveryCallReturns
 CHECK_DEADLOCK FALSE
